@@ -36,6 +36,9 @@ type c27Op struct {
 	Topic  string `json:"topic,omitempty"`
 	QoS    uint8  `json:"qos,omitempty"`
 	Via    string `json:"via,omitempty"` // registered short predefined
+	// Between: Subscribe/Unsubscribe calls which complete between the QoS 2 PUBLISH (answered with
+	// PUBREC) and its PUBREL: the delivery happens at PUBREL, with the subscriptions current then.
+	Between []c27Op `json:"between,omitempty"`
 }
 
 type c27Case struct {
@@ -99,6 +102,21 @@ func genC27(t *rapid.T) c27Case {
 					op.Via = "predefined"
 				}
 			}
+			if op.QoS == 2 && rapid.Bool().Draw(t, "between") {
+				nb := rapid.IntRange(1, 2).Draw(t, "nbetween")
+				for j := 0; j < nb; j++ {
+					if len(subs) > 0 && rapid.Bool().Draw(t, "between_unsub") {
+						op.Between = append(op.Between, c27Op{Op: "unsub", Filter: rapid.SampledFrom(subs).Draw(t, "bunsub")})
+					} else {
+						f := genFilter(t)
+						if rapid.IntRange(0, 2).Draw(t, "bexact") == 0 {
+							f = op.Topic // a filter which matches this very topic
+						}
+						subs = append(subs, f)
+						op.Between = append(op.Between, c27Op{Op: "sub", Filter: f, QoS: uint8(rapid.IntRange(0, 2).Draw(t, "bqos"))})
+					}
+				}
+			}
 			c.Ops = append(c.Ops, op)
 		}
 	}
@@ -133,13 +151,13 @@ func runC27(c c27Case) (r vf.Result) {
 	knows := map[string]bool{}  // names the client has an ID for
 	dead := map[string]bool{}   // filters unsubscribed and not subscribed again
 	msgID := uint16(100)
-	for i, op := range c.Ops {
+	subUnsub := func(op c27Op) bool {
 		switch op.Op {
 		case "sub":
 			cs := s.Go(clsim.Call{API: "Subscribe", Topic: op.Filter, QoS: op.QoS})
 			if !s.WaitCall(cs, time.Minute) || cs.Err != nil {
 				r.Fail("harness-subscribe", "Subscribe(%q) -> returned=%v err=%v\n%s", op.Filter, cs.Returned, cs.Err, s.Dump(20))
-				return
+				return false
 			}
 			live[op.Filter] = true
 			delete(dead, op.Filter)
@@ -150,10 +168,19 @@ func runC27(c c27Case) (r vf.Result) {
 			cs := s.Go(clsim.Call{API: "Unsubscribe", Topic: op.Filter})
 			if !s.WaitCall(cs, time.Minute) || cs.Err != nil {
 				r.Fail("harness-unsubscribe", "Unsubscribe(%q) -> returned=%v err=%v\n%s", op.Filter, cs.Returned, cs.Err, s.Dump(20))
-				return
+				return false
 			}
 			delete(live, op.Filter)
 			dead[op.Filter] = true
+		}
+		return true
+	}
+	for i, op := range c.Ops {
+		switch op.Op {
+		case "sub", "unsub":
+			if !subUnsub(op) {
+				return
+			}
 		case "deliver":
 			msgID++
 			payload := []byte(fmt.Sprintf("d%d", i))
@@ -179,6 +206,17 @@ func runC27(c c27Case) (r vf.Result) {
 			if op.QoS == 2 {
 				if n := len(s.Deliveries) - before; n != 0 {
 					r.Fail("qos2-callback-before-pubrel", "callback ran %d time(s) on the QoS 2 PUBLISH, before PUBREL\n%s", n, s.Dump(20))
+					return
+				}
+				for _, b := range op.Between {
+					if !subUnsub(b) {
+						return
+					}
+					r.Label("subscription-changes-before-pubrel")
+					r.NonTrivial = true
+				}
+				if n := len(s.Deliveries) - before; n != 0 {
+					r.Fail("qos2-callback-before-pubrel", "callback ran %d time(s) before the PUBREL of the QoS 2 delivery\n%s", n, s.Dump(20))
 					return
 				}
 				s.GatewaySend(snref.Pkt{Type: snref.PUBREL, MsgID: p.MsgID}, false)
@@ -238,7 +276,7 @@ func gwID(g *clsim.Gateway, name string) uint16 {
 func TestC27(t *testing.T) {
 	vf.Check(t, vf.Prop[c27Case]{
 		ID: "C27", Name: "dispatch-matching", Bubble: true,
-		Rule: "real client against a cooperative scripted gateway; histories of 2-14 operations: Subscribe with filters of 0-3 levels over {a,b,empty,+} with optional trailing '#' (so '#', 'a/#', '+/+', '/', 'a//b', 'a/' occur) or plain names, each with its own recording callback; Unsubscribe; deliveries of topics of 1-4 levels over {a,b,empty} at QoS 0/1 (on receipt) and QoS 2 (PUBLISH, PUBREC, PUBREL) via registered IDs, 2-octet short names and predefined IDs. Every (filter, topic) pair with at most 2 levels is additionally enumerated with a single subscription. Non-trivial = a delivery with >= 2 live subscriptions of which some match and some do not, or a topic with an empty level; distinct by case.",
+		Rule: "real client against a cooperative scripted gateway; histories of 2-14 operations: Subscribe with filters of 0-3 levels over {a,b,empty,+} with optional trailing '#' (so '#', 'a/#', '+/+', '/', 'a//b', 'a/' occur) or plain names, each with its own recording callback; Unsubscribe; deliveries of topics of 1-4 levels over {a,b,empty} at QoS 0/1 (on receipt) and QoS 2 (PUBLISH, PUBREC, PUBREL; in half of them 1-2 Subscribe/Unsubscribe calls complete between PUBREC and PUBREL, and the subscriptions current at the PUBREL decide) via registered IDs, 2-octet short names and predefined IDs. Every (filter, topic) pair with at most 2 levels is additionally enumerated with a single subscription. Non-trivial = a delivery with >= 2 live subscriptions of which some match and some do not, or a topic with an empty level; distinct by case.",
 		Assumptions: []string{"'$'-topics and invalid filters are not generated; which of several matching callbacks runs is not constrained", "oracle: reference matcher written from MQTT 3.1.1 section 4.7"},
 		Exhaustive: func(tier string, yield func(c27Case)) {
 			lv := []string{"a", "b", "", "+"}
